@@ -83,6 +83,10 @@ def gen_cases(tier, seed, shard, nshards):
         for mn in ("BRA", "LBRA", "BSR", "LBEQ", "BNE"):
             yield {"id": "undef/%s" % mn, "mode": "reject", "form": "undefined-symbol",
                    "lines": [" ORG $1000\n", "DEF NOP\n", " %s UNDEF\n" % mn, " RTS\n"]}
+        # the top of memory: nothing may be laid out beyond $FFFF (reject, or never emit there)
+        for lines in ([" ORG $FFFE\n", " LDX #1\n"], [" ORG $FFFF\n", " LDA #1\n"], [" ORG $FFF0\n", " RMB 20\n", "L1 NOP\n"], [" ORG $FFFE\n", " LDA #1\n", "L2 NOP\n"],
+                      [" ORG $FFFD\n", " JMP L3\n", "L3 NOP\n"], [" ORG $FFFC\n", "L4 FDB 1,2,3\n"], [" ORG $FFFE\n", " LDA #1\n", " END\n"], [" ORG $FFFF\n", "L5 NOP\n"]):
+            yield {"id": "top/" + "".join(lines).replace("\n", "|").strip(), "mode": "layout", "kinds": None, "form": "top-of-memory", "lines": lines}
         # multiple origins / code before ORG: reject, or stay loadable at the reported origin
         for a, b in ((0x1000, 0x2000), (0x2000, 0x1000), (0x1000, 0x1002), (0x1000, 0x1000), (0x10, 0x2000), (0x1000, 0x1001)):
             yield {"id": "org2/%x/%x" % (a, b), "mode": "layout", "kinds": None, "form": "second-org",
